@@ -15,10 +15,15 @@ A phase is executed with the very operation lists of the C04 model:
 * `finish r` — a write group's new pack: `NewPack.finish` (C04 `newPackOps`) +
                `allocate`; the pack gets a globally fresh name and holds the
                revisions `r`;
-* `repack s` — a `Packer` combining the packs `s`: new pack with a fresh name
-               holding the union of their revisions, `_remove_pack_from_memory`
-               for `s`.  If a source pack is not readable any more the real code
-               reloads and retries: the step then is a `reload`;
+* `repack s` — the write phase of a `Packer` combining the packs `s` of the
+               process' list: new pack with a fresh name holding the union of
+               their revisions (`finish`, `allocate`), `_remove_pack_from_memory`
+               for `s`.  The packer has READ the sources before this phase
+               (before its `finish` baton); when a source is unreadable at that
+               time the real code reloads and retries (`RetryAutopack`,
+               `RetryPackOperations`), which is the phase `reload`.  Asking to
+               repack packs that are not in the process' list is such a
+               reload as well;
 * `save c`   — `_save_pack_names` up to the unlock, atomic under the names lock:
                three-way merge, `put_file`, if `c`: `_clear_obsolete_packs`
                preserving the packs about to be obsoleted; memory synchronised;
@@ -93,7 +98,7 @@ def step (s : Sys) (i : Nat) : Act → Sys
       next := s.next + 2 }
   | .repack sel =>
     let p := s.procs i
-    if sel.all (fun n => p.names.contains n && ready s.chk s.disk n) then
+    if sel.all (fun n => p.names.contains n) then
       let m := s.next + 1
       { s with
         disk := run s.disk (newPackOps s.chk (upTmp s.next true) m)
